@@ -40,6 +40,7 @@ import CBV.Lemmas.C16Real
 import CBV.Lemmas.C16Param
 import CBV.Lemmas.C08Tie
 import Mathlib.Tactic.NormNum
+import CBV.Gen.TC16
 
 namespace CBV.C16
 
